@@ -76,3 +76,9 @@ pub assume_specification [std::fs::File::sync_data] (f: &File) -> (r: Result<(),
     ensures r is Ok ==> inner_synced(f);
 pub assume_specification [std::fs::File::sync_all] (f: &File) -> (r: Result<(), std::io::Error>)
     ensures r is Ok ==> inner_synced(f);
+/// Write::write may accept only a prefix of the data (short write); the caller must look at the count
+pub assume_specification<W: ?Sized + std::io::Write> [<BufWriter<W> as Write>::write] (w: &mut BufWriter<W>, d: &[u8]) -> (r: Result<usize, std::io::Error>)
+    ensures
+        bw(final(w)).cap == bw(old(w)).cap,
+        r is Ok ==> r->Ok_0 <= d@.len() && bw_all(bw(final(w))) == bw_all(bw(old(w))) + d@.subrange(0, r->Ok_0 as int),
+        r is Err ==> bw_all(bw(final(w))) == bw_all(bw(old(w)));
